@@ -159,6 +159,14 @@ def make_callback(fam, who, opname):
             "kl_append": lambda: o.kl.append(("c", v)),
             "kl_setitem": lambda: o.kl.__setitem__(0, ("z", v)),
             "kl_extend": lambda: o.kl.extend([("c", v), ("d", 1)]),
+            "kl_delitem": lambda: o.kl.__delitem__(0),
+            "kl_delkey": lambda: o.kl.__delitem__("a"),
+            "kl_pop": lambda: o.kl.pop(),
+            "kl_remove": lambda: o.kl.remove(("a", 1)),
+            "kl_insert": lambda: o.kl.insert(0, ("c", v)),
+            "kl_setkey": lambda: o.kl.__setitem__("a", ("z", v)),
+            "kl_reverse": lambda: o.kl.reverse(),
+            "kl_iadd": lambda: o.kl.__iadd__([("c", v)]),
             "with_y": lambda: o.with_y(v + 1, **kw),
             "reset_scores": lambda: o.reset_scores(**kw),
         }
@@ -194,8 +202,65 @@ CALLBACK_MATRIX = [
     ("item_preparer", "with_scores"), ("item_preparer", "with_score"), ("item_preparer", "update_multi"), ("item_preparer", "transform_score"),
     ("validator", "with_ev"), ("validator", "update_multi"),
     ("keyfn", "kl_append"), ("keyfn", "kl_setitem"), ("keyfn", "kl_extend"),
+    ("keyfn", "kl_delitem"), ("keyfn", "kl_delkey"), ("keyfn", "kl_pop"), ("keyfn", "kl_remove"), ("keyfn", "kl_insert"), ("keyfn", "kl_setkey"), ("keyfn", "kl_reverse"), ("keyfn", "kl_iadd"),
     ("post_copy", "with_y"), ("post_copy", "with_score"), ("post_copy", "reset_scores"), ("post_copy", "update_multi"),
 ]
+
+def make_keyedset_equiv(fam):
+    """element helpers on a KeyedSet attribute that enforces item equivalence: an edit that would put an unequal item
+    under an existing key is refused - and must leave the set (members and iteration order) as it was"""
+    from spec_classes import Attr, spec_class
+    from spec_classes.types import KeyedSet
+
+    from vf.grammar import FAMILIES
+    from vf.snapshot import describe, register, same, snap
+    from vf.sym import Skip, Violation, assume, check, pick
+
+    Item = FAMILIES[fam].Item
+
+    @spec_class(bootstrap=(fam == "eager"))
+    class KS:
+        members: KeyedSet[Item, str] = Attr(default_factory=lambda: KeyedSet[Item, str](enforce_item_equivalence=True))
+        y: int = 0
+
+    register(KS, ["members", "y"])
+
+    def h(va: int, vb: int, vn: int, op: int, inplace: bool) -> str:
+        o = KS(y=va)
+        o.members.add(Item("a", v=va))
+        o.members.add(Item("b", v=vb))
+        by = KS()
+        by.members.add(Item("a", v=1))
+        kw = {"_inplace": True} if inplace else {}
+        opname = pick(["update_rekey", "with_item", "transform_rekey", "update_value", "with_keyed"], op)
+        new_item = Item("b", v=vn)
+        s_o, s_by, s_arg = snap(o), snap(by), snap(new_item)
+        try:
+            if opname == "update_rekey":  # re-key a onto b
+                o.update_member("a", k="b", **kw)
+            elif opname == "with_item":
+                o.with_member(new_item, **kw)
+            elif opname == "transform_rekey":
+                o.transform_member("a", lambda it: Item("b", v=vn), **kw)
+            elif opname == "update_value":
+                o.update_member("a", v=vn, **kw)
+            else:
+                o.with_member("b", v=vn, **kw)
+            return "returned"
+        except (Violation, Skip):
+            raise
+        except Exception as ex:
+            exc = ex
+        tag = f"C04/keyedset-equivalence/{opname}"
+        check(isinstance(exc, (TypeError, ValueError, KeyError)), "a refused element raises ValueError / TypeError", f"{tag}/other-exception-{type(exc).__name__}", lambda: repr(exc))
+        check(same(snap(o), s_o), "an operation that raises leaves the receiver, its nested values and containers exactly as before", f"{tag}/receiver-changed-{'inplace' if inplace else 'copy'}", lambda: f"{describe(s_o)} -> {describe(snap(o))}")
+        check(same(snap(new_item), s_arg), "... and the arguments", f"{tag}/argument-changed")
+        check(same(snap(by), s_by), "... and other instances", f"{tag}/bystander-changed")
+        return "raised"
+
+    h.__name__ = f"C04_keyedset_equiv_{fam}"
+    return h
+
 
 _base_obligations = obligations
 
@@ -208,4 +273,5 @@ def obligations(tier):  # noqa: F811
     for fam in ("eager",) if tier == "quick" else ("eager", "lazy"):
         for who, opname in CALLBACK_MATRIX:
             obs.append(Ob(f"C04.{fam}.callback.{who}.{opname}", make_callback(fam, who, opname), [(at, 5, s, ip) for at in (1, 2, 3) for s in (0, 1) for ip in (False, True)], f"user callback `{who}` raising at its at-th invocation (at symbolic in 1..4) during {opname}; _inplace symbolic; snapshots of receiver, its keyed container, the argument list and a bystander instance compared on every raising path", expect=set(), timeout=T))
+        obs.append(Ob(f"C04.{fam}.keyedset-equivalence", make_keyedset_equiv(fam), [(1, 2, vn, op, ip) for vn in (2, 3) for op in range(5) for ip in (False, True)], "KeyedSet[Item,str](enforce_item_equivalence=True) attribute holding items a, b with symbolic payloads; update_/with_/transform_<member> that re-key a onto b or add an unequal item under b (symbolic payload), _inplace symbolic; snapshots (members, order, identities) compared on every raising path", expect=set(), timeout=T))
     return obs
